@@ -37,7 +37,7 @@ def cases(tier, seed):
         yield {'stratum': 'one-data-object-many-configurations', 'index': k, 'kind': 'shared'}
     yield {'stratum': 'invalid', 'index': 0, 'kind': 'invalid'}
     if tier == 'thorough':
-        yield {'stratum': 'default-output-chunk', 'index': 0, 'kind': 'default'}
+        yield {'stratum': 'default-output-chunk', 'index': 0, 'kind': 'default', 'once': True}
 
 
 def make_spec(r):
